@@ -73,6 +73,10 @@ Next ==
   \/ \E x, y \in Names : Resolve(st.old, y) # 0 /\ Do("local " \o x \o ": " \o y \o ".T = u", <<E("use", "u", 4), E("use", y, 2), E("keep", "T", 3), E("decl", x, 1)>>, 4, "", <<>>)
   \/ \E x, y \in Names : Resolve(st.old, y) # 0 /\ Do("u(" \o x \o " :: " \o y \o ".T)", <<E("use", "u", 1), E("use", x, 2), E("use", y, 3), E("keep", "T", 4)>>, 4, "", <<>>)
   \/ \E y \in Names : Resolve(st.old, y) # 0 /\ Do("type T = " \o y \o ".T", <<E("keep", "type", 1), E("keep", "T", 2), E("use", y, 3), E("keep", "T", 4)>>, 4, "", <<>>)   \* `type` is a word, not a keyword
+  \* the annotation of a loop variable is resolved OUTSIDE the loop scope (a loop variable named like the namespace does not capture it)
+  \/ \E x, y, z \in Names : Resolve(st.old, y) # 0 /\ Do("for " \o x \o ": " \o y \o ".T in " \o z \o " do", <<E("use", z, 4), E("use", y, 2), E("keep", "T", 3), E("push", "", 0), E("decl", x, 1)>>, 4, "end", <<>>)
+  \* a type function declares its parameters in its own scope
+  \/ \E p \in Names : Do("type function T(" \o p \o ")", <<E("keep", "type", 1), E("keep", "T", 2), E("push", "", 0), E("decl", p, 3)>>, 3, "end", <<>>)
   \/ Do("do", <<E("push", "", 0)>>, 0, "end", <<>>)
   \/ \E f \in FnNames, p \in Names : Do("local function " \o f \o "(" \o p \o ")", <<E("declfn", f, 1), E("push", "", 0), E("decl", p, 2)>>, 2, "end", <<>>)
   \/ \E f, p \in Names : Do("local " \o f \o " = function(" \o p \o ")", <<E("push", "", 0), E("decl", p, 2)>>, 2, "end", <<E("decl", f, 1)>>)
